@@ -227,6 +227,25 @@ def gen_ops(ctx):
                 mode = modes[r.below(len(modes))]
                 (w, h) = (r.range(2, hi), r.range(1, hi)); s1 = seed(); kind = r.below(3)
                 ops.append("%sxequal %s %s %s %d %d %d %d %d %d %d" % (pre, mode, T1, T2, w, h, w, h, s1, s1 if kind < 2 else seed(), r.range(0, w * h - 1) if kind == 1 else -1))
+    # ---- recreate with row ALIGNMENT: the same sequence of recreate calls on the any_image and on the concrete image; row size and
+    #      row-start alignment observed after every call (same dims / new alignment, new dims / same alignment, both, neither)
+    ALIGNS = [0, 1, 2, 4, 8, 16, 32]
+    def other_align(a):
+        while True:
+            b = ALIGNS[r.below(len(ALIGNS))]
+            if b != a: return b
+    for (Ts, pre) in ((L7, ""), (LB, "B ")):
+        for T in Ts:
+            for _ in range(3 * reps):
+                w, h = (1, 3, 5, 7, 9)[r.below(5 if th else 4)], r.range(1, hi)      # odd widths: row bytes rarely a multiple of the alignment
+                a0 = ALIGNS[r.below(len(ALIGNS))]; a1 = (2, 4, 8, 16, 32)[r.below(5)]
+                if a1 == a0: a1 = 8 if a0 != 8 else 16
+                ops.append("%simg realign %s %d %d %d %s %d %d %d" % (pre, T, w, h, a0, ("xy", "pt")[r.below(2)], w, h, a1))
+            for _ in range(reps):
+                w, h = r.range(1, hi), r.range(1, hi); a0 = ALIGNS[r.below(len(ALIGNS))]
+                a1 = other_align(a0); (w2, h2) = diff_dims(w, h); a2 = other_align(a1); (w3, h3) = diff_dims(w2, h2)
+                steps = [(w, h, a1), (w2, h2, a1), (w3, h3, a2), (w3, h3, a2), (w, h, a2), (w, h, other_align(a2))]
+                ops.append("%simg realign %s %d %d %d " % (pre, T, w, h, a0) + " ".join("%s %d %d %d" % (("xy", "pt")[r.below(2)], x, y, a) for (x, y, a) in steps))
     # ---- any_image / any_image_view as values
     ops.append("img default"); ops.append("B img default")
     for T in L7: ops.append("img atc %s" % T)
@@ -325,7 +344,7 @@ ASSUME = [
     "documents homogeneous pixels only (conversion to rgba), and {gray8, rgb8} for cross-list assignment",
     "rgb16 -> gray conversions go through float32 in the code: the model reproduces the IEEE operation sequence with Lean Float32 (partial (float)); "
     "resize_view's matrix is reproduced with Lean Float (binary64); the Spec judge never depends on these values (it compares the run-time typed result with the concrete result of the real code)",
-    "pixel contents after any_image::recreate are unspecified and not compared",
+    "pixel contents after any_image::recreate are unspecified and not compared (held type, dimensions, row size and row alignment are)",
 ]
 
 def run(ctx, ops=None):
@@ -363,7 +382,7 @@ def run(ctx, ops=None):
              "alternatives x every overload shape (any/any, const any/any, any/concrete, concrete/any) of copy_pixels, equal_pixels, copy_and_convert_pixels "
              "(default and user converter), resample_pixels and resize_view, every alternative x every fill value type, for_each_pixel, operands of different dimensions (incompatible => bad_cast; "
              "compatible => the concrete assertion, matched in forked children), a STATEFUL user converter, and copy / assignment / "
-             "equality / recreate / default construction of any_image and any_image_view, any_image_view assignment from a concrete view and from a sub-list view, "
+             "equality / recreate (incl. sequences of recreate calls with row alignments 0..32: row size and row-start alignment after every call) / default construction of any_image and any_image_view, any_image_view assignment from a concrete view and from a sub-list view, "
              "the deprecated apply_operation, at_c (dynamic_at_c.hpp), fill_pixels / for_each_pixel THROUGH a lifted flip / subsample / subimage and copy_pixels / equal_pixels "
              "on two lifted-transformed views for every ordered pair (visits on mapped type lists); shapes and contents seeded by VERIF_SEED. non-trivial = more than one pixel involved or the "
              "bad_cast path is exercised (distinct op lines counted); the judge compares the run-time typed result with the concrete call of the real code",
